@@ -228,6 +228,29 @@ impl Insert {
                 self.new_rows.len()
             );
         }
+        // Make sure that the new strings will fit in the string pool (trying
+        // it out on a copy of the pool if it is nearly full), so that nothing
+        // is modified if they don't.
+        let num_strings = self
+            .new_rows
+            .iter()
+            .flatten()
+            .filter(|value| value.is_str())
+            .count();
+        if !string_pool.has_room_for(num_strings) {
+            let mut trial_pool = string_pool.clone();
+            for value in self.new_rows.iter().flatten() {
+                if ValueRef::try_create(value.clone(), &mut trial_pool)
+                    .is_none()
+                {
+                    invalid_input!(
+                        "Cannot insert into table {:?}: too many distinct \
+                         strings in the string pool",
+                        self.table_name
+                    );
+                }
+            }
+        }
         // Insert the new rows into the table.
         for values in self.new_rows.into_iter() {
             let keys: Vec<Value> = key_indices
@@ -758,20 +781,35 @@ impl Update {
                 }
             }
         }
-        // Update the rows.
-        for (value_refs, &should_update) in
-            rows.iter_mut().zip(should_update.iter())
-        {
-            if should_update {
-                for (column_name, value) in self.updates.iter() {
-                    let index =
-                        table.index_for_column_name(column_name).unwrap();
-                    let value_ref = &mut value_refs[index];
-                    value_ref.remove(string_pool);
-                    *value_ref = ValueRef::create(value.clone(), string_pool);
-                }
+        // Make sure that the new strings will fit in the string pool (trying
+        // the update out on a copy of the pool if it is nearly full), so that
+        // nothing is modified if they don't.
+        let num_strings = self
+            .updates
+            .iter()
+            .filter(|(_, value)| value.is_str())
+            .count()
+            .saturating_mul(should_update.iter().filter(|&&b| b).count());
+        if !string_pool.has_room_for(num_strings) {
+            let mut trial_pool = string_pool.clone();
+            let mut trial_rows = rows.clone();
+            if !self.apply_updates(
+                table,
+                &mut trial_rows,
+                &should_update,
+                &mut trial_pool,
+            ) {
+                invalid_input!(
+                    "Cannot update table {:?}: too many distinct strings in \
+                     the string pool",
+                    self.table_name
+                );
             }
         }
+        // Update the rows.
+        let updated =
+            self.apply_updates(table, &mut rows, &should_update, string_pool);
+        debug_assert!(updated);
         // Keep the rows in primary key order if any keys changed.
         if updates_keys {
             rows.sort_by_cached_key(|value_refs| -> Vec<Value> {
@@ -785,6 +823,39 @@ impl Update {
         let stream = comp.create_stream(&stream_name)?;
         table.write_rows(stream, rows)?;
         Ok(())
+    }
+}
+
+impl Update {
+    /// Replaces the cells to be updated in the given rows, releasing the old
+    /// strings and interning the new ones.  Returns false (leaving the rows
+    /// and the pool partly updated) if the string pool is full.
+    fn apply_updates(
+        &self,
+        table: &Table,
+        rows: &mut [Vec<ValueRef>],
+        should_update: &[bool],
+        string_pool: &mut StringPool,
+    ) -> bool {
+        for (value_refs, &should_update) in
+            rows.iter_mut().zip(should_update.iter())
+        {
+            if should_update {
+                for (column_name, value) in self.updates.iter() {
+                    let index =
+                        table.index_for_column_name(column_name).unwrap();
+                    let value_ref = &mut value_refs[index];
+                    value_ref.remove(string_pool);
+                    *value_ref =
+                        match ValueRef::try_create(value.clone(), string_pool)
+                        {
+                            Some(value_ref) => value_ref,
+                            None => return false,
+                        };
+                }
+            }
+        }
+        true
     }
 }
 
